@@ -520,6 +520,14 @@ def D56():
     op = eao.portfolio.Portfolio([book, a]).setup_optim_problem({'market': 10 * np.ones(tg.T)}, tg)
     return 'full execution, order wholly before the grid: executed fraction %s' % op.optimize().x[:1]
 
+@witness
+def D57():
+    tg = A.Timegrid(dt.datetime(2021, 1, 1, 12), dt.datetime(2021, 1, 4), freq='h')
+    c = A.Contract(name='c', nodes=N1, freq='d', start=dt.datetime(2021, 1, 1), min_cap=0, max_cap=10, price='p',
+                   min_take={'start': dt.datetime(2021, 1, 1), 'end': dt.datetime(2021, 1, 4), 'values': 72})
+    r = c.setup_optim_problem({'p': np.ones(tg.T)}, tg).optimize()
+    return 'daily contract, min take 72 over three days, horizon starting at noon (60 of 72 h covered): volume taken %.0f' % -r.value
+
 if __name__ == '__main__':
     which = sys.argv[1:] or list(W)
     for k in which:
